@@ -24,7 +24,7 @@ PLACEMENTS = [
     "deep_array_anyof_not", "el_properties", "el_patternProperties", "el_additionalProperties",
     "el_propertyNames", "el_dependencies", "el_items", "el_contains",
 ]
-REQUIRED_COUNTERS = ["acyclic.ordered", "cyclic.refused", "multi_root"] + [f"edge.{p}" for p in PLACEMENTS]
+REQUIRED_COUNTERS = ["acyclic.ordered", "cyclic.refused", "multi_root", "graphs.with_decoy_property_names"] + [f"edge.{p}" for p in PLACEMENTS]
 EXHAUSTIVE_SUBSPACES = {
     "quick": ["all 2^9 digraphs on 3 named classes incl. self-loops", "all 2^12 loop-free digraphs on 4 classes",
               "all digraphs on 1 and 2 classes"],
@@ -38,6 +38,10 @@ ANCHORS = [
     "statham.serializers.orderer:_get_path",
     "statham.serializers.orderer:get_object_classes",
 ]
+
+
+DECOY_NAMES = ["properties", "additionalProperties", "patternProperties", "propertyNames", "dependencies", "items",
+               "additionalItems", "contains", "elements", "element", "default", "required"]
 
 
 def plan(tier):
@@ -151,6 +155,14 @@ def run_graph(ctx, sut, count, edges, placements, roots, tag, root_wrapper=None)
     classes = [
         sut.ObjectMeta(f"K{i}", (sut.Object,), sut_classdict(sut)) for i in range(count)
     ]
+    if (count + len(edges)) % 3 == 0:
+        # decoys: properties whose NAMES are the segments the walk itself looks up ("properties",
+        # "additionalProperties", "items", ...), holding plain leaves - a walk which subscripts or reads a
+        # class by such a name must still find the keyword, not the property
+        for idx, cls in enumerate(classes):
+            for step in range(2):
+                cls.properties[DECOY_NAMES[(idx * 2 + step + count) % len(DECOY_NAMES)]] = sut.Property(sut.String())
+        ctx.count("graphs.with_decoy_property_names")
     for serial, ((src, dst), placement) in enumerate(zip(edges, placements)):
         add_edge(sut, classes, src, dst, placement, serial)
         ctx.count("edge." + placement)
